@@ -309,6 +309,7 @@ type SDriver struct {
 	Cons          *fakes.Consumer
 	Disc          *fakes.Discovery
 	RealDisc      stream.VBucketDiscovery // when set, the stream is built on this discovery instead of the fake
+	oldObs        map[uint16]couchbase.Observer
 	RealMeta      metadata.Metadata       // when set, the stream is built on this metadata backend instead of the fake store
 	Hand          *fakes.Handler
 	Stream        stream.Stream
@@ -636,6 +637,7 @@ func (d *SDriver) Exec(op SOp) (outs []SOut) {
 			return d.closeOuts(d.Hand.Take())
 		}
 		d.Hand.SetHold("BeforeRebalanceEnd", true)
+		d.oldObs = d.Client.AllObservers() // the observers of the session that is being closed
 		d.Stream.Rebalance()
 		select {
 		case <-d.Hand.Held:
@@ -678,6 +680,19 @@ func (d *SDriver) Exec(op SOp) (outs []SOut) {
 		d.Hand.SetHold("AfterRebalanceEnd", false)
 		d.Hand.Resume()
 		outs = d.openOuts(append([]string{"BeforeRebalanceEnd"}, d.Hand.Take()...))
+		// the end notifications ("closed") of the streams of the previous session reach their observers only now, as they may
+		// with a server that is slow to send them: those observers no longer forward anything (CloseEnd), nothing must change
+		if len(d.oldObs) > 0 {
+			time.Sleep(2 * time.Millisecond)
+			for vb, ob := range d.oldObs {
+				func() {
+					defer func() { _ = recover() }()
+					ob.End(models.DcpStreamEnd{VbID: vb}, gocbcore.ErrDCPStreamClosed)
+				}()
+			}
+			d.oldObs = nil
+			time.Sleep(2 * time.Millisecond)
+		}
 	case "close":
 		d.Stream.Close(op.Cancel)
 		outs = d.closeOuts(d.Hand.Take())
